@@ -177,6 +177,12 @@ EXPORT errno_t _asctime_s_chk(char *dest, rsize_t dmax, const struct tm *tm,
             handle_error(dest, dmax, "asctime_s: conversion failed", -1);
             return -1;
         }
+#ifdef SAFECLIB_STR_NULL_SLACK
+        /* converted in place: null the slack behind the terminator */
+        len = strlen(dest);
+        memset(dest + len, 0, dmax - len);
+#endif
+        return EOK;
     } else {
         char tmp[120];
         buf = asctime_r(tm, (char *)&tmp);
